@@ -26,7 +26,7 @@ type Case struct {
 }
 
 var classes = []string{"+NaN", "-NaN", "+sNaN", "-sNaN", "+Inf", "-Inf", "junk+Inf", "junk-Inf", "+0", "-0", "+0e", "-0e",
-	"+frac", "-frac", "+one", "-one", "+odd", "-odd", "+even", "-even", "+evenE", "-oddE", "+nonint", "-nonint"}
+	"+frac", "-frac", "+one", "-one", "+odd", "-odd", "+even", "-even", "+evenE", "-oddE", "+oddE", "-evenE", "+nonint", "-nonint"}
 
 var unary = []string{"abs", "neg", "round", "reduce", "rtie", "rtiv", "ceil", "floor", "quantize", "sqrt", "cbrt", "ln", "log10", "exp"}
 var binary = []string{"add", "sub", "mul", "quo", "quointeger", "rem", "pow", "cmp"}
@@ -393,6 +393,12 @@ func genCase(t *rapid.T) Case {
 		vary(&c.Y, "y")
 	}
 	c.QExp = int32(rapid.IntRange(-5, 5).Draw(t, "qexp"))
+	switch gen.Pick(t, 6, "qwide") { // target exponents outside the context's range too
+	case 0:
+		c.QExp = c.Ctx.Emin - int32(c.Ctx.P) + 1 - int32(rapid.IntRange(1, 60).Draw(t, "qlow"))
+	case 1:
+		c.QExp = c.Ctx.Emax + int32(rapid.IntRange(1, 60).Draw(t, "qhigh"))
+	}
 	return c
 }
 
